@@ -191,40 +191,42 @@ type c01Script struct {
 }
 
 type c01World struct {
-	t        *testing.T
-	node     *Node
-	br       *c01Broker
-	client   *Client
-	tr       *c01Transport
-	sc       *c01Script
-	fl       []c01Tok
-	glog     []c01Pub
-	byID     map[int]c01Pub
-	nextID   int
-	curEp    uint64
-	epIdx    map[string]uint64
-	epStr    map[uint64]string
-	sched    []string
-	since    uint64
-	sinceEp  uint64
-	insuff   int32
-	insuffH  int32
-	armLog   int32
-	armDPF   int32
-	arrive   chan string
-	release  chan struct{}
-	subCb    func()
-	blocked  chan struct{} // a delivery goroutine parked behind the locked buffer
-	locked   bool          // subscribe thread is between LMerge and LStopBuf
-	errs     []string
-	curPh    int
-	phaseOf  map[int]int // publication id -> script phase of its last delivery
-	deliv    []string    // Coq frames of the messages handed to the node, in delivery order
-	delivK   []string    // the same as comparable keys (pub:<id> | join | leave)
-	batchOff int32
-	skew     int64
-	lastLive string // Coq term: option frame (C38's end-to-end cases)
-	cwEnd    int    // items left in the channel's batching writer when the schedule ended
+	t          *testing.T
+	node       *Node
+	br         *c01Broker
+	client     *Client
+	tr         *c01Transport
+	sc         *c01Script
+	fl         []c01Tok
+	glog       []c01Pub
+	byID       map[int]c01Pub
+	nextID     int
+	curEp      uint64
+	epIdx      map[string]uint64
+	epStr      map[uint64]string
+	sched      []string
+	since      uint64
+	sinceEp    uint64
+	insuff     int32
+	insuffH    int32
+	armLog     int32
+	armDPF     int32
+	arrive     chan string
+	release    chan struct{}
+	subCb      func()
+	blocked    chan struct{} // a delivery goroutine parked behind the locked buffer
+	locked     bool          // subscribe thread is between LMerge and LStopBuf
+	errs       []string
+	curPh      int
+	phaseOf    map[int]int // publication id -> script phase of its last delivery
+	deliv      []string    // Coq frames of the messages handed to the node, in delivery order
+	delivK     []string    // the same as comparable keys (pub:<id> | join | leave)
+	batchOff   int32
+	skew       int64
+	inCheck    bool
+	checkDiscs int
+	lastLive   string // Coq term: option frame (C38's end-to-end cases)
+	cwEnd      int    // items left in the channel's batching writer when the schedule ended
 }
 
 func (w *c01World) fail(format string, a ...any) {
@@ -505,7 +507,13 @@ func (w *c01World) deliverNow(tk c01Tok, lag bool) {
 func (w *c01World) settleInsufficient() {
 	for atomic.LoadInt32(&w.insuff) > w.insuffH {
 		w.insuffH++
-		if w.sc.Server || w.sc.Connect {
+		if (w.sc.Server || w.sc.Connect) && w.inCheck {
+			// inside a position check: close() flips the status and closes the transport, then
+			// waits for the parked tick before it unsubscribes; the cleanup follows the check
+			w.waitFor("server insufficient-state close (transport)", w.tr.isClosed)
+			w.emitL("LAsyncDisc")
+			w.checkDiscs++
+		} else if w.sc.Server || w.sc.Connect {
 			w.waitFor("server insufficient-state close", func() bool {
 				return w.tr.isClosed() && w.node.hub.NumSubscribers(c01Ch) == 0
 			})
@@ -769,17 +777,23 @@ func (w *c01World) opPosCheck(mid []c01Op) {
 		// position snapshot and stream top are both read: the verdict is determined here, the
 		// driver learns it after the release
 		gateIdx, gateFl = len(w.sched), len(w.fl)
+		w.inCheck, w.checkDiscs = true, 0
 		for _, op := range mid {
 			switch op.K {
 			case "pub", "dup", "drop", "deliver":
 				w.runOps([]c01Op{op})
 			}
 		}
+		w.inCheck = false
 		w.release <- struct{}{}
 		select {
 		case <-done:
 		case <-time.After(5 * time.Second):
 			w.fail("position check did not finish")
+		}
+		if w.checkDiscs > 0 {
+			w.waitFor("close cleanup after the position check", func() bool { return w.node.hub.NumSubscribers(c01Ch) == 0 })
+			w.emitL("LCloseCleanup")
 		}
 	case <-done: // the tick had nothing to check
 	case <-time.After(5 * time.Second):
@@ -1286,6 +1300,19 @@ func c01Key(sc *c01Script, frames []c01Frame, glog []c01Pub) string {
 	}
 	if !bad {
 		return "ok"
+	}
+	// a live publication (pushed after the subscribe reply / push) whose offset does not exceed the
+	// previous LIVE one: the position went backwards while subscribed (none of the recorded
+	// findings: those concern the recovered range of the reply)
+	var lastLive uint64
+	haveLive := false
+	for _, f := range frames {
+		if f.K == "pub" && len(f.Pubs) == 1 && f.Pubs[0].Off > 0 {
+			if haveLive && f.Pubs[0].Off <= lastLive {
+				return "live-position-went-backwards"
+			}
+			lastLive, haveLive = f.Pubs[0].Off, true
+		}
 	}
 	// a hole strictly between two publications that are BOTH inside the subscribe reply is
 	// the merge's own gap check failing (not the known unanchored-reply finding)
